@@ -14,6 +14,14 @@ use clarabel::verif_hooks::c14 as hk;
 use common::*;
 use serde_json::{json, Value};
 use std::collections::BTreeMap;
+use std::sync::atomic::{AtomicUsize, Ordering};
+// inner-iteration calls whose result is covered by the enclosure theorem C14_wright_omega_enclosure
+// (argument in [0,1000]) / all Wright-omega calls / Newton-Raphson calls (certified per sample only)
+static OMEGA_IN: AtomicUsize = AtomicUsize::new(0);
+static OMEGA_ALL: AtomicUsize = AtomicUsize::new(0);
+static NEWTON_ALL: AtomicUsize = AtomicUsize::new(0);
+fn note_omega(z: f64) { OMEGA_ALL.fetch_add(1, Ordering::Relaxed); if (0.0..=1000.0).contains(&z) { OMEGA_IN.fetch_add(1, Ordering::Relaxed); } }
+fn note_omega_s(s: &[f64]) { note_omega(1.0 - s[0] / s[1] - (s[1] / s[2]).ln()); }
 
 // ---------- printing ----------
 fn v3(v: &[f64]) -> String { format!("({}, {}, {})", cfl(v[0]), cfl(v[1]), cfl(v[2])) }
@@ -93,6 +101,7 @@ fn run_case_inner(op: &str, inp: &Value) -> String {
         }
         "exp_gradp" => {
             let s = fv(&inp["s"]);
+            note_omega_s(&s);
             let mut k = ExponentialCone::<f64>::new();
             let g = k.verif_gradient_primal(&s);
             let bp = k.verif_barrier_primal(&s);
@@ -100,6 +109,7 @@ fn run_case_inner(op: &str, inp: &Value) -> String {
         }
         "wright" => {
             let z = f(&inp["z"]);
+            note_omega(z);
             format!("(c_wright {} {})", cfl(z), cfl(hk::verif_wright_omega(z)))
         }
         "exp_scaling" | "pow_scaling" => {
@@ -110,6 +120,7 @@ fn run_case_inner(op: &str, inp: &Value) -> String {
             let mut packed = [0.0; 6];
             let mut work = [0.0; 3];
             if op == "exp_scaling" {
+                if !dual { note_omega_s(&s); }
                 let mut k = ExponentialCone::<f64>::new();
                 k.update_scaling(&s, &z, mu, strategy(dual));
                 let (h, hs, g, _) = k.verif_state();
@@ -120,6 +131,7 @@ fn run_case_inner(op: &str, inp: &Value) -> String {
                         v3(&g), s3(&h), s3(&hs), v3(&zt), s3(&hs), v3(&x), v3(&y), cfllist(&packed))
             } else {
                 let al = f(&inp["alpha"]);
+                if !dual { NEWTON_ALL.fetch_add(1, Ordering::Relaxed); }
                 let mut k = PowerCone::<f64>::new(al);
                 k.update_scaling(&s, &z, mu, strategy(dual));
                 let (h, hs, g, _) = k.verif_state();
@@ -129,6 +141,36 @@ fn run_case_inner(op: &str, inp: &Value) -> String {
                 format!("(N.max (c_pow_scaling {} {} {} {} {} {} {} {} {} {}) (c_mul_Hs {} {} {} {}))", cfl(tol), cfl(al), cb(dual), v3(&s), v3(&z), cfl(mu),
                         v3(&g), s3(&h), s3(&hs), v3(&zt), s3(&hs), v3(&x), v3(&y), cfllist(&packed))
             }
+        }
+        // badly balanced pairs (lam s, z/lam), lam = 2^k: covariance and strict definiteness
+        "exp_scaling_cov" | "pow_scaling_cov" => {
+            let (s, z) = (fv(&inp["s"]), fv(&inp["z"]));
+            let lam = (2.0f64).powi(inp["k"].as_i64().unwrap() as i32);
+            let al = f(&inp["alpha"]);
+            let (tol, kk) = (f(&inp["tol"]), inp["minor_bits"].as_i64().unwrap());
+            let s2: Vec<f64> = s.iter().map(|x| x * lam).collect();
+            let z2: Vec<f64> = z.iter().map(|x| x / lam).collect();
+            let run = |s: &[f64], z: &[f64]| -> ([f64; 6], [f64; 6], [f64; 3], [f64; 3]) {
+                if op == "exp_scaling_cov" {
+                    let mut k = ExponentialCone::<f64>::new();
+                    k.update_scaling(s, z, 1.0, ScalingStrategy::PrimalDual);
+                    let (h, hs, g, _) = k.verif_state();
+                    (h, hs, g, k.verif_gradient_primal(s))
+                } else {
+                    let mut k = PowerCone::<f64>::new(al);
+                    k.update_scaling(s, z, 1.0, ScalingStrategy::PrimalDual);
+                    let (h, hs, g, _) = k.verif_state();
+                    (h, hs, g, k.verif_gradient_primal(s))
+                }
+            };
+            let (_h1, hs1, _g1, _zt1) = run(&s, &z);
+            let (h2, hs2, g2, zt2) = run(&s2, &z2);
+            let inner = if op == "exp_scaling_cov" {
+                format!("c_exp_scaling {} false {} {} {} {} {} {} {}", cfl(tol), v3(&s2), v3(&z2), cfl(1.0), v3(&g2), s3(&h2), s3(&hs2), v3(&zt2))
+            } else {
+                format!("c_pow_scaling {} {} false {} {} {} {} {} {} {}", cfl(tol), cfl(al), v3(&s2), v3(&z2), cfl(1.0), v3(&g2), s3(&h2), s3(&hs2), v3(&zt2))
+            };
+            format!("(N.max ({}) (c_scaling_cov {} {} ({})%Z {} {}))", inner, cfl(tol), cfl(lam), kk, s3(&hs1), s3(&hs2))
         }
         "exp_unit" => {
             let k = ExponentialCone::<f64>::new();
@@ -166,6 +208,7 @@ fn run_case_inner(op: &str, inp: &Value) -> String {
         }
         "pow_gradp" => {
             let (s, al) = (fv(&inp["s"]), f(&inp["alpha"]));
+            NEWTON_ALL.fetch_add(1, Ordering::Relaxed);
             let mut k = PowerCone::<f64>::new(al);
             let g = k.verif_gradient_primal(&s);
             let bp = k.verif_barrier_primal(&s);
@@ -211,6 +254,7 @@ fn run_case_inner(op: &str, inp: &Value) -> String {
             // the cone is first scaled at zprev (this fills the stored Hessian vectors), then
             // gradient_primal(s) is evaluated: the result must not depend on zprev
             let (al, s, zprev) = (fv(&inp["alpha"]), fv(&inp["s"]), fv(&inp["zprev"]));
+            NEWTON_ALL.fetch_add(1, Ordering::Relaxed);
             let d1 = al.len();
             let n = s.len();
             let mut k = GenPowerCone::<f64>::new(al.clone(), n - d1);
@@ -224,6 +268,45 @@ fn run_case_inner(op: &str, inp: &Value) -> String {
             } else {
                 format!("(c_gp_gradp {} {} {} {} {} {})", cfl(f(&inp["tol"])), cfllist(&al), cfllist(&s[..d1]), cfllist(&s[d1..]), cfllist(&g[..d1]), cfllist(&g[d1..]))
             }
+        }
+        // ---- backtrack_search driven by the cones' own membership tests ----
+        "bt3" => {
+            let kind = inp["kind"].as_u64().unwrap() as usize;
+            let al = f(&inp["alpha"]);
+            let (q, dq) = (fv(&inp["q"]), fv(&inp["dq"]));
+            let (a0, amin, step) = (f(&inp["a0"]), f(&inp["amin"]), f(&inp["step"]));
+            let mut work = [0.0; 3];
+            let ke = ExponentialCone::<f64>::new();
+            let kp = PowerCone::<f64>::new(al);
+            let r = clarabel::verif_hooks::c1315::verif_backtrack_search(&dq, &q, a0, amin, step, |w: &[f64]| match kind {
+                0 => ke.verif_is_primal_feasible(w), 1 => ke.verif_is_dual_feasible(w),
+                2 => kp.verif_is_primal_feasible(w), _ => kp.verif_is_dual_feasible(w) }, &mut work);
+            format!("(c_bt3 {} {} {} {} {} {} {} {})", cn(kind), cfl(al), v3(&q), v3(&dq), cfl(a0), cfl(amin), cfl(step), cfl(r))
+        }
+        "bt_gp" => {
+            let dual = inp["dual"].as_bool().unwrap();
+            let al = fv(&inp["alpha"]);
+            let (q, dq) = (fv(&inp["q"]), fv(&inp["dq"]));
+            let (a0, amin, step) = (f(&inp["a0"]), f(&inp["amin"]), f(&inp["step"]));
+            let d1 = al.len();
+            let mut work = vec![0.0; q.len()];
+            let k = GenPowerCone::<f64>::new(al.clone(), q.len() - d1);
+            let r = clarabel::verif_hooks::c1315::verif_backtrack_search(&dq, &q, a0, amin, step, |w: &[f64]| if dual { k.verif_is_dual_feasible(w) } else { k.verif_is_primal_feasible(w) }, &mut work);
+            format!("(c_bt_gp {} {} {} {} {} {} {} {} {} {})", cb(dual), cfllist(&al), cfllist(&q[..d1]), cfllist(&dq[..d1]), cfllist(&q[d1..]), cfllist(&dq[d1..]), cfl(a0), cfl(amin), cfl(step), cfl(r))
+        }
+        "gp_scaling_verdict" => {
+            let (al, z, zprev, mu) = (fv(&inp["alpha"]), fv(&inp["z"]), fv(&inp["zprev"]), f(&inp["mu"]));
+            let d1 = al.len();
+            let mut k = GenPowerCone::<f64>::new(al.clone(), z.len() - d1);
+            k.update_scaling(&zprev, &zprev, 1.0, ScalingStrategy::Dual);
+            let before = k.verif_state();
+            let ok = k.update_scaling(&z, &z, mu, ScalingStrategy::PrimalDual);
+            let after = k.verif_state();
+            let same = |a: &Vec<f64>, b: &Vec<f64>| a.iter().zip(b).all(|(x, y)| x.to_bits() == y.to_bits());
+            let unchanged = same(&before.0, &after.0) && same(&before.1, &after.1) && before.2.to_bits() == after.2.to_bits()
+                && same(&before.3, &after.3) && same(&before.4, &after.4) && same(&before.5, &after.5) && same(&before.6, &after.6)
+                && before.7.to_bits() == after.7.to_bits();
+            format!("(c_gp_scaling_verdict {} {} {} {} {} {})", cfllist(&al), cfllist(&z[..d1]), cfllist(&z[d1..]), cfl(mu), cb(ok), cb(unchanged))
         }
         "gp_unit" => {
             let al = fv(&inp["alpha"]);
@@ -405,6 +488,17 @@ fn generate(sink: &mut CaseSink, seed: u64, thorough: bool) -> BTreeMap<String, 
         let inp = json!({"alpha": al, "s": s, "z": z, "mu": mu, "dual": dual, "x": x, "tol": 1e-5});
         emit(sink, &mut g, if is_exp { "exp_scaling" } else { "pow_scaling" }, inp, if central { "central" } else if dual { "dual" } else { "pd" });
     }
+    // badly balanced pairs: (s, z) -> (2^k s, 2^-k z) at off-central interior points
+    for (i, k) in [8i64, -8, 16, -16, 24, -24, 30, -30].iter().enumerate() {
+        for rep in 0..(3 * scale) {
+            let al = g.alpha();
+            let is_exp = (i + rep) % 2 == 0;
+            let (ms, mz) = (g.logu(0.05, 0.9), g.logu(0.05, 0.9));
+            let (s, z) = if is_exp { (g.exp_primal(ms), g.exp_dual(mz)) } else { (g.pow_primal(al, ms), g.pow_dual(al, mz)) };
+            let inp = json!({"alpha": al, "s": s, "z": z, "k": k, "tol": 1e-5, "minor_bits": 40});
+            emit(sink, &mut g, if is_exp { "exp_scaling_cov" } else { "pow_scaling_cov" }, inp, "balance");
+        }
+    }
     emit(sink, &mut g, "exp_unit", json!({}), "unit");
     for _ in 0..(10 * scale) { let al = g.alpha(); emit(sink, &mut g, "pow_unit", json!({"alpha": al}), "unit"); }
     // --- generalised power cone: dims 2..6, dim2 0..3
@@ -434,6 +528,46 @@ fn generate(sink: &mut CaseSink, seed: u64, thorough: bool) -> BTreeMap<String, 
         let zprev = if g.rng.chance(3, 4) { g.gp_point(&al, d2, true, 0.5) } else { vec![] };
         emit(sink, &mut g, "gp_gradp", json!({"alpha": al, "s": s, "zprev": zprev, "tol": 1e-6}), "gradp");
         emit(sink, &mut g, "gp_gradp_model", json!({"alpha": al, "s": s, "zprev": zprev, "tol": 1e-6}), "gradp");
+    }
+    // --- genpow update_scaling verdict: outside / on the boundary of / inside the dual cone
+    for k in 0..(24 * scale) {
+        let d1 = 2 + g.rng.below(3);
+        let d2 = 1 + g.rng.below(2);
+        let al = g.gp_alpha(d1);
+        let zprev = g.gp_point(&al, d2, true, 0.5);
+        let z = match k % 4 {
+            0 => { let mut z = al.clone(); z.extend(vec![0.0; d2]); z[d1] = 1.0; z } // zeta = 0 exactly
+            1 => { let m = g.logu(1e-9, 0.5); g.gp_point(&al, d2, true, -m) }
+            2 => { let m = g.logu(1e-9, 0.5); g.gp_point(&al, d2, true, m) }
+            _ => { let mut z = g.gp_point(&al, d2, true, 0.3); z[0] = -z[0]; z }
+        };
+        emit(sink, &mut g, "gp_scaling_verdict", json!({"alpha": al, "z": z, "zprev": zprev, "mu": 0.5}), "scaling");
+    }
+    // --- backtrack_search: steps 0.8 / 0.5 / 0.99 / 0.995; directions leaving the cone at
+    // alpha* in 1e-6..2 (several hundred backtracks for the slow steps), never feasible, at once
+    for k in 0..(48 * scale) {
+        let kind = k % 4;
+        let al = g.alpha();
+        let m = g.logu(1e-3, 0.9);
+        let q = match kind { 0 => g.exp_primal(m), 1 => g.exp_dual(m), 2 => g.pow_primal(al, m), _ => g.pow_dual(al, m) };
+        let step = [0.8, 0.5, 0.99, 0.995][(k / 4) % 4];
+        let astar = match k % 6 { 0 => 2.0, 5 => 5e-5, _ => g.logu(1e-4, 1.0) };
+        // q + a*dq = (1 - a/astar) q + a*noise: leaves the cone near a = astar
+        let nz: Vec<f64> = g.dir(3).iter().zip(&q).map(|(x, qi)| 0.05 * x * qi.abs() / astar).collect();
+        let dq: Vec<f64> = q.iter().zip(&nz).map(|(qi, ni)| -qi / astar + ni).collect();
+        let a0 = if g.rng.chance(1, 2) { 1.0 } else { 0.99 };
+        emit(sink, &mut g, "bt3", json!({"kind": kind, "alpha": al, "q": q, "dq": dq, "a0": a0, "amin": 1e-4, "step": step}), "backtrack");
+    }
+    for k in 0..(16 * scale) {
+        let d1 = 2 + g.rng.below(3);
+        let d2 = 1 + g.rng.below(2);
+        let al = g.gp_alpha(d1);
+        let dual = k % 2 == 0;
+        let q = g.gp_point(&al, d2, dual, 0.5);
+        let step = [0.8, 0.99, 0.5, 0.995][(k / 2) % 4];
+        let astar = g.logu(1e-4, 1.0);
+        let dq: Vec<f64> = q.iter().map(|qi| -qi / astar).collect();
+        emit(sink, &mut g, "bt_gp", json!({"dual": dual, "alpha": al, "q": q, "dq": dq, "a0": 1.0, "amin": 1e-4, "step": step}), "backtrack");
     }
     g.stats
 }
@@ -484,6 +618,9 @@ fn main() {
         }
         let mut st = generate(&mut sink, seed, tier == "thorough");
         st.insert("corpus_files".into(), ncorpus);
+        st.insert("omega_calls_in_enclosure_domain_0_1000".into(), OMEGA_IN.load(Ordering::Relaxed));
+        st.insert("omega_calls".into(), OMEGA_ALL.load(Ordering::Relaxed));
+        st.insert("newton_raphson_calls_certified_per_sample".into(), NEWTON_ALL.load(Ordering::Relaxed));
         sink.record(json!({"stats": st}));
     }
     sink.record(json!({"meta": {"prop": "c14", "seed": seed, "tier": tier, "blas": blas_shim::AVAILABLE}}));
